@@ -332,6 +332,20 @@ def Call.usesCell (c : Nat) : Call → Bool
   | .pos base _ n _ => decide (base ≤ c) && decide (c < base + n)
   | .wrap _ _ _ opts => (opts.map fun o => o.1).contains c
 
+/-! ### same-value writes (threads on the SAME field write the same name) -/
+
+/-- every read of a cell in the program comes after a write of that cell by the same program (`w`: cells written so far) -/
+def readsAfterOwnWrite : List Nat → List Step → Bool
+  | _, [] => true
+  | w, s :: rest => s.readCells.all (fun c => w.contains c) && readsAfterOwnWrite (s.writeCells ++ w) rest
+
+/-- every write of the program stores the constant `k c` into cell `c` -/
+def uniformB (k : Nat → String) (p : List Step) : Bool :=
+  p.all fun s => match s with
+    | .write c n => n == .const (k c)
+    | _ => true
+
+
 /-! ### which Field objects are shared: follow the generated shared-write table
 
   A validator site that the table lists with an unsafe value that is READ BACK works on the Field object of the class
